@@ -1693,6 +1693,22 @@ impl TransactionBuilder {
 
     fn validate_fee(&self) -> Result<(), JsError> {
         if let Some(fee) = &self.get_fee_if_set() {
+            // a request made (or changed) after the fee was settled is not reflected in it
+            match &self.fee_request {
+                TxBuilderFee::Exactly(exact) if fee != exact => {
+                    return Err(JsError::from_str(&format!(
+                        "Fee differs from the fee requested by set_fee. Requested: {}, Fee: {}",
+                        exact, fee
+                    )));
+                }
+                TxBuilderFee::NotLess(not_less) if fee < not_less => {
+                    return Err(JsError::from_str(&format!(
+                        "Fee is less than the fee requested by set_min_fee. Requested: {}, Fee: {}",
+                        not_less, fee
+                    )));
+                }
+                _ => {}
+            }
             let min_fee = min_fee(&self)?;
             if fee < &min_fee {
                 Err(JsError::from_str(&format!(
